@@ -13,7 +13,7 @@ section covers
 variable {α : Type} [Add α] [Sub α] [Div α] [Neg α] [OfNat α 0] [OfNat α 1] [LT α] [DecidableLT α] [BEq α]
 
 theorem cover_point' (ops : Ops α) (frac : Pt α → Pt α) (zoom fuel : Nat) (p : Pt α) :
-    cover ops frac zoom fuel (.point p) = .ok [tileAt ops (frac p) zoom] := by
+    cover ops frac zoom fuel (.point p) = .ok [tileAt ops p.x (frac p) zoom] := by
   simp only [cover]
 
 theorem cov_shl32_one_pow {z : Nat} (hz : z ≤ 31) : shl32 1 z = 2 ^ z := by
@@ -21,19 +21,47 @@ theorem cov_shl32_one_pow {z : Nat} (hz : z ≤ 31) : shl32 1 z = 2 ^ z := by
   have := shl32_eq (a := 1) (s := z) (by omega)
   omega
 
-theorem tileAt_spec' (ops : Ops α) (f : Pt α) (zoom : Nat) (hz : zoom ≤ 31) :
-    tileAt ops f zoom = ⟨Nat.min (ops.toU32 f.x) (2 ^ zoom - 1), ops.toU32 f.y, zoom⟩ := by
+theorem tileAt_spec' (ops : Ops α) (lon : α) (f : Pt α) (zoom : Nat) (hz : zoom ≤ 31) :
+    tileAt ops lon f zoom =
+      (let x := Nat.min (ops.toU32 f.x) (2 ^ zoom - 1)
+       ⟨if 0 < x ∧ lon < ops.westEdge x (2 ^ zoom) then x - 1 else x, ops.toU32 f.y, zoom⟩) := by
   have hp : 0 < 2 ^ zoom := Nat.pow_pos (by omega)
-  simp only [tileAt, cov_shl32_one_pow hz]
+  have hx : (if 2 ^ zoom ≠ 0 ∧ ops.toU32 f.x ≥ 2 ^ zoom then 2 ^ zoom - 1 else ops.toU32 f.x)
+      = Nat.min (ops.toU32 f.x) (2 ^ zoom - 1) := by
+    show _ = min _ _
+    rw [Nat.min_def]
+    split <;> split <;> omega
+  simp only [tileAt, cov_shl32_one_pow hz, hx]
   apply tile_ext <;> simp only []
-  show _ = min _ _
-  rw [Nat.min_def]
-  split <;> split <;> omega
+  by_cases h : 0 < Nat.min (ops.toU32 f.x) (2 ^ zoom - 1) ∧
+      lon < ops.westEdge (Nat.min (ops.toU32 f.x) (2 ^ zoom - 1)) (2 ^ zoom)
+  · rw [if_pos h, if_pos ⟨by omega, h.1, h.2⟩]
+  · rw [if_neg h, if_neg (fun h' => h ⟨h'.2.1, h'.2.2⟩)]
+
+/-- The column `maptile.At` returns is never east of the longitude, as far as the edge expression can tell:
+    a positive result column that was not stepped back has its west edge at or west of the longitude;
+    a stepped-back column is the one just west of an edge the longitude lies west of. -/
+theorem tileAt_column' (ops : Ops α) (lon : α) (f : Pt α) (zoom : Nat) (hz : zoom ≤ 31) :
+    let x := Nat.min (ops.toU32 f.x) (2 ^ zoom - 1)
+    let t := tileAt ops lon f zoom
+    (t.x = x ∧ (0 < x → ¬ lon < ops.westEdge x (2 ^ zoom))) ∨
+    (t.x + 1 = x ∧ lon < ops.westEdge x (2 ^ zoom)) := by
+  intro x t
+  have ht : t = _ := tileAt_spec' ops lon f zoom hz
+  by_cases h : 0 < x ∧ lon < ops.westEdge x (2 ^ zoom)
+  · right
+    refine ⟨?_, h.2⟩
+    rw [ht]; simp only []
+    rw [if_pos h]; omega
+  · left
+    refine ⟨?_, fun h0 hl => h ⟨h0, hl⟩⟩
+    rw [ht]; simp only []
+    rw [if_neg h]
 
 theorem cover_multiPoint' (ops : Ops α) (frac : Pt α → Pt α) (zoom fuel : Nat) (ps : List (Pt α)) :
     ∃ S, cover ops frac zoom fuel (.multiPoint ps) = .ok S ∧
-      ∀ t, t ∈ S ↔ ∃ p ∈ ps, t = tileAt ops (frac p) zoom := by
-  refine ⟨ps.map fun p => tileAt ops (frac p) zoom, by simp only [cover], ?_⟩
+      ∀ t, t ∈ S ↔ ∃ p ∈ ps, t = tileAt ops p.x (frac p) zoom := by
+  refine ⟨ps.map fun p => tileAt ops p.x (frac p) zoom, by simp only [cover], ?_⟩
   intro t
   simp only [List.mem_map]
   constructor
@@ -55,13 +83,13 @@ theorem cov_mem_coverRect (lo hi t : Tile) (z : Nat) :
 theorem cover_bound_rect' (ops : Ops α) (frac : Pt α → Pt α) (zoom fuel : Nat) (a b : Pt α) :
     ∃ S, cover ops frac zoom fuel (.bound a b) = .ok S ∧
       ∀ t, t ∈ S ↔ (¬ (b.x < a.x ∨ b.y < a.y) ∧ t.z = zoom ∧
-        (tileAt ops (frac a) zoom).x ≤ t.x ∧ t.x ≤ (tileAt ops (frac b) zoom).x ∧
-        (tileAt ops (frac b) zoom).y ≤ t.y ∧ t.y ≤ (tileAt ops (frac a) zoom).y) := by
+        (tileAt ops a.x (frac a) zoom).x ≤ t.x ∧ t.x ≤ (tileAt ops b.x (frac b) zoom).x ∧
+        (tileAt ops b.x (frac b) zoom).y ≤ t.y ∧ t.y ≤ (tileAt ops a.x (frac a) zoom).y) := by
   by_cases h : b.x < a.x ∨ b.y < a.y
   · refine ⟨[], by simp only [cover, if_pos h], ?_⟩
     intro t
     simp [h]
-  · refine ⟨coverRect (tileAt ops (frac a) zoom) (tileAt ops (frac b) zoom) zoom, by simp only [cover, if_neg h], ?_⟩
+  · refine ⟨coverRect (tileAt ops a.x (frac a) zoom) (tileAt ops b.x (frac b) zoom) zoom, by simp only [cover, if_neg h], ?_⟩
     intro t
     rw [cov_mem_coverRect]
     simp [h]
